@@ -9,6 +9,11 @@
                               primitive source is WIDER than the bnum target (outside C13); for
                               char (a 32-bit source) into a target below 32 bits it is `*` only
                               when the code point does not fit.
+    try <src> <dst> <hex> tf  primitive / bool / char → bnum through the blanket
+                              `impl<T, U: Into<T>> TryFrom<U> for T` of core (`Ok(U::into(x))`, error type
+                              `Infallible`) wherever the crate gives `From`, and the explicit `TryFrom` for
+                              iK → u-bnum: same model function, same spec as the plain form.
+                              (bnum type tokens are any `u<w>x<n>` / `i<w>x<n>`, up to 8192 bits.)
     from_digit <cfg> <hex digit>            Answer: hex pattern.
     from_digits <cfg> <d0,d1,…>             little-endian hex digits → hex pattern
     from_array  <cfg> <d0,d1,…>             (`From<[Digit; N]>`), same format
@@ -37,9 +42,7 @@ def valueDigits (w : Nat) : Nat → Nat → List Nat
   | 0, _ => []
   | n + 1, v => v % 2 ^ w :: valueDigits w n (v / 2 ^ w)
 
-def handleRaw (op : String) (args : List String) : Option (String × String) :=
-  match op, args with
-  | "try", [src, dst, v] => do
+def handleTry (src dst v : String) : Option (String × String) := do
     let src ← parseTy src; let dst ← parseTy dst
     match src, dst with
     | .bnum c₁, .bnum c₂ =>
@@ -69,6 +72,15 @@ def handleRaw (op : String) (args : List String) : Option (String × String) :=
               showSpec (Spec.tryConv false (2 ^ 32) p false (M c₂.w c₂.n))
             else "*")
     | _, _ => none
+
+def handleRaw (op : String) (args : List String) : Option (String × String) :=
+  match op, args with
+  | "try", [src, dst, v] => handleTry src dst v
+  | "try", [src, dst, v, "tf"] =>
+    -- `TryFrom` form of a `From` conversion: only sources that are not bnum integers
+    match parseTy src with
+    | some (.bnum _) => none
+    | _ => handleTry src dst v
   | "from_digit", [c, d] => do
     let c ← parseCfg c; let d ← parsePat c.w d
     some (showOut (showVal c) (UI.fromDigitO c.n d), toHex d)
